@@ -1218,4 +1218,546 @@ theorem wf_init (cat : Catalog) : Wf 0 (Db.State.init cat) :=
 theorem RelW.refl_of_wf {w : WState} {k : Nat} (h : Wf k w.db) : RelW w w :=
   ⟨⟨k, k, rfl, h, h⟩, rfl, rfl, rfl, rfl, rfl, rfl⟩
 
+/-! ### well-formedness along runs of the wrapper machine -/
+
+/-- the state of the MVCC machine inside a wrapper state is well-formed for some cut point of the commit log -/
+def WfW (w : WState) : Prop := ∃ k, Wf k w.db
+
+theorem stepCoreW_wf (D : Db.Defects) (R : Defects) (ideal : Bool) {w : WState} (h : WfW w) (op : WOp) :
+    WfW (stepCoreW D R ideal w op).1 := by
+  obtain ⟨k, hk⟩ := h
+  cases op with
+  | db op =>
+    simp only [stepCoreW]
+    split
+    · exact ⟨k, hk⟩
+    · exact ⟨k, stepCore_wf D hk op⟩
+  | create ts =>
+    simp only [stepCoreW]
+    split
+    · exact ⟨k, (commutes_fail D).wf k _ hk⟩
+    · exact ⟨k, ((commutes_fields (fun c => c ++ [ts]) id id).comp (commutes_tick D)).wf k _ hk⟩
+  | dropTable t =>
+    simp only [stepCoreW]
+    split
+    · exact ⟨k, ((commutes_fields (fun c => c.filter (fun ts => ts.name != t))
+          (fun r => r.filter (fun r => r.table != t))
+          (fun ix => ix.filter (fun e => e.table != t))).comp (commutes_tick D)).wf k _ hk⟩
+    · exact ⟨k, (commutes_fail D).wf k _ hk⟩
+  | vacuum => exact ⟨k, (commutes_vacuum.comp (commutes_tick D)).wf k _ hk⟩
+  | tid => exact ⟨k, (commutes_tick D).wf k _ hk⟩
+  | burn n => exact ⟨k, (commutes_burn D n).wf k _ hk⟩
+  | obs t =>
+    simp only [stepCoreW]
+    split
+    · exact ⟨k, (commutes_tick D).wf k _ hk⟩
+    · exact ⟨k, (commutes_fail D).wf k _ hk⟩
+  | reopen leak cfg =>
+    simp only [stepCoreW]
+    cases ideal
+    · simp only [Bool.false_eq_true, if_false]
+      exact ⟨0, (commutes_tick D).wf 0 _ (wf_open cfg R _)⟩
+    · simp only [if_true]
+      exact ⟨_, (commutes_tick D).wf _ _ (wf_quiesce _)⟩
+
+theorem stepW_wf (D : Db.Defects) (R : Defects) (ideal : Bool) {w : WState} (h : WfW w) (op : WOp) :
+    WfW (stepW D R ideal w op).1 := by
+  obtain ⟨k, hk⟩ := stepCoreW_wf D R ideal h op
+  exact ⟨k, commutes_clock.wf k _ hk⟩
+
+/-- an invariant of single steps is an invariant of runs -/
+theorem runFromW_inv (D : Db.Defects) (R : Defects) (ideal : Bool) (P : WState → Prop)
+    (hstep : ∀ w op, P w → P (stepW D R ideal w op).1) :
+    ∀ (ops : List WOp) (w : WState) (acc : List WOut), P w → P (runFromW D R ideal w ops acc).1
+  | [], _, _, h => h
+  | op :: ops, w, acc, h => by
+    simp only [runFromW]
+    exact runFromW_inv D R ideal P hstep ops _ _ (hstep w op h)
+
+theorem wfW_init (cfg : Config) : WfW (WState.init cfg) := ⟨0, wf_init []⟩
+
+/-! ### transaction ids are handed out upwards; a finished transaction keeps its status -/
+
+structure Grows (σ σ' : Db.State) : Prop where
+  len : σ.txns.length ≤ σ'.txns.length
+  dead : ∀ (i : Nat) (t : Txn), σ.txns[i]? = some t → t.status ≠ .active → ∃ t', σ'.txns[i]? = some t' ∧ t'.status = t.status
+
+theorem Grows.refl (σ : Db.State) : Grows σ σ := ⟨Nat.le_refl _, fun _ t h _ => ⟨t, h, rfl⟩⟩
+
+theorem Grows.trans {σ σ' σ'' : Db.State} (h1 : Grows σ σ') (h2 : Grows σ' σ'') : Grows σ σ'' := by
+  refine ⟨Nat.le_trans h1.len h2.len, ?_⟩
+  intro i t ht hd
+  obtain ⟨t', ht', e⟩ := h1.dead i t ht hd
+  obtain ⟨t'', ht'', e'⟩ := h2.dead i t' ht' (by rw [e]; exact hd)
+  exact ⟨t'', ht'', e'.trans e⟩
+
+theorem Same.length {σ σ' : Db.State} (h : Same σ σ') : σ'.txns.length = σ.txns.length := by
+  apply Nat.le_antisymm
+  · apply Nat.le_of_not_lt
+    intro hlt
+    have : ∃ t', σ'.txns[σ.txns.length]? = some t' := ⟨_, List.getElem?_eq_getElem hlt⟩
+    obtain ⟨t', ht'⟩ := this
+    obtain ⟨t, ht, _⟩ := h.bwd _ t' ht'
+    exact Nat.lt_irrefl _ (getElem?_lt' ht)
+  · apply Nat.le_of_not_lt
+    intro hlt
+    have : ∃ t, σ.txns[σ'.txns.length]? = some t := ⟨_, List.getElem?_eq_getElem hlt⟩
+    obtain ⟨t, ht⟩ := this
+    obtain ⟨t', ht', _⟩ := h.fwd _ t ht
+    exact Nat.lt_irrefl _ (getElem?_lt' ht')
+
+theorem Same.grows {σ σ' : Db.State} (h : Same σ σ') : Grows σ σ' :=
+  ⟨Nat.le_of_eq h.length.symm, fun i t ht _ => by
+    obtain ⟨t', ht', e, _⟩ := h.fwd i t ht
+    exact ⟨t', ht', e⟩⟩
+
+theorem grows_begin (D : Db.Defects) (σ : Db.State) : Grows σ (σ.beginTxn D).1 := by
+  refine ⟨by simp [State.beginTxn], ?_⟩
+  intro i t ht _
+  exact ⟨t, by simp only [State.beginTxn]; rw [List.getElem?_append_left (getElem?_lt' ht)]; exact ht, rfl⟩
+
+/-- only the entry of one transaction that is active (or does not exist) changes -/
+theorem grows_of_ne {σ σ' : Db.State} (tid : Nat) (hlen : σ.txns.length ≤ σ'.txns.length)
+    (hne : ∀ i, i ≠ tid → σ'.txns[i]? = σ.txns[i]?) (hact : ∀ t, σ.txns[tid]? = some t → t.status = .active) :
+    Grows σ σ' := by
+  refine ⟨hlen, ?_⟩
+  intro i t ht hd
+  by_cases e : i = tid
+  · subst e; exact (hd (hact t ht)).elim
+  · exact ⟨t, by rw [hne i e]; exact ht, rfl⟩
+
+theorem setStatus_length (txns : List Txn) (tid : Nat) (st : Status) : (setStatus txns tid st).length = txns.length := by
+  simp [setStatus]
+
+theorem commitTxn_length (σ : Db.State) (tid : Nat) : (σ.commitTxn tid).1.txns.length = σ.txns.length := by
+  simp only [State.commitTxn]
+  split
+  · rfl
+  · split <;> simp [setStatus_length]
+
+theorem commitC_length (D : Db.Defects) (σ : Db.State) (tid : Nat) : (σ.commitC D tid).1.txns.length = σ.txns.length := by
+  simp only [State.commitC]
+  split
+  · split
+    · simp [State.abortTxn, setStatus_length]
+    · exact commitTxn_length σ tid
+  · exact commitTxn_length σ tid
+
+theorem grows_abort (σ : Db.State) (tid : Nat) (hact : ∀ t, σ.txns[tid]? = some t → t.status = .active) :
+    Grows σ (σ.abortTxn tid) :=
+  grows_of_ne tid (by simp [State.abortTxn, setStatus_length]) (fun i e => abortTxn_get_ne σ tid i e) hact
+
+theorem grows_commitC (D : Db.Defects) (σ : Db.State) (tid : Nat) (hact : ∀ t, σ.txns[tid]? = some t → t.status = .active) :
+    Grows σ (σ.commitC D tid).1 :=
+  grows_of_ne tid (Nat.le_of_eq (commitC_length D σ tid).symm) (fun i e => commitC_get_ne D σ tid i e) hact
+
+theorem grows_commitTxn (σ : Db.State) (tid : Nat) (hact : ∀ t, σ.txns[tid]? = some t → t.status = .active) :
+    Grows σ (σ.commitTxn tid).1 :=
+  grows_of_ne tid (Nat.le_of_eq (commitTxn_length σ tid).symm) (fun i e => commitTxn_get_ne σ tid i e) hact
+
+theorem grows_sessions (σ : Db.State) (l : List (String × Nat)) : Grows σ { σ with sessions := l } :=
+  ⟨Nat.le_refl _, fun _ t h _ => ⟨t, h, rfl⟩⟩
+
+theorem sess_active {k : Nat} {σ : Db.State} (h : Wf k σ) {s : String} {tid : Nat} (hl : lookup s σ.sessions = some tid) :
+    ∀ t, σ.txns[tid]? = some t → t.status = .active := by
+  intro t ht
+  obtain ⟨t0, ht0, hact⟩ := h.sessAct s tid hl
+  rw [ht] at ht0; cases ht0; exact hact
+
+theorem stepCore_grows (D : Db.Defects) {k : Nat} {σ : Db.State} (h : Wf k σ) (op : Op) : Grows σ (stepCore D σ op).1 := by
+  cases op with
+  | begin s =>
+    simp only [stepCore]
+    cases hl : lookup s σ.sessions with
+    | none =>
+      simp only
+      exact (grows_begin D σ).trans (grows_sessions _ _)
+    | some old =>
+      simp only
+      have g1 : Grows σ ((σ.abortTxn old).endSession s) := (grows_abort σ old (sess_active h hl)).trans (grows_sessions _ _)
+      exact g1.trans ((grows_begin D _).trans (grows_sessions _ _))
+  | commit s =>
+    simp only [stepCore]
+    cases hl : lookup s σ.sessions with
+    | none => exact Grows.refl σ
+    | some tid => exact (grows_commitC D σ tid (sess_active h hl)).trans (grows_sessions _ _)
+  | rollback s =>
+    simp only [stepCore]
+    cases hl : lookup s σ.sessions with
+    | none => exact Grows.refl σ
+    | some tid => exact (grows_abort σ tid (sess_active h hl)).trans (grows_sessions _ _)
+  | drop s =>
+    simp only [stepCore]
+    cases hl : lookup s σ.sessions with
+    | none => exact Grows.refl σ
+    | some tid => exact (grows_abort σ tid (sess_active h hl)).trans (grows_sessions _ _)
+  | exec s st =>
+    simp only [stepCore]
+    cases hl : lookup s σ.sessions with
+    | none => exact Grows.refl σ
+    | some tid => exact (stmt_same D σ tid 0 st).grows
+  | auto st =>
+    simp only [stepCore]
+    have hs := stmt_same D (σ.beginTxn D).1 (σ.beginTxn D).2 0 st
+    have hnew := begin_new_active D σ
+    generalize (σ.beginTxn D).1.stmt D (σ.beginTxn D).2 0 st = r at hs
+    obtain ⟨σ2, p⟩ := r
+    simp only at hs ⊢
+    have hact2 : ∀ t, σ2.txns[(σ.beginTxn D).2]? = some t → t.status = .active := by
+      intro t ht
+      obtain ⟨t0, ht0, e, _⟩ := hs.bwd _ t ht
+      rw [hnew] at ht0; cases ht0; exact e
+    have g2 : Grows σ σ2 := (grows_begin D σ).trans hs.grows
+    split
+    · exact g2.trans (grows_abort σ2 _ hact2)
+    · exact g2.trans (grows_commitC D σ2 _ hact2)
+  | batch sts =>
+    simp only [stepCore]
+    have hs := batch_same D (σ.beginTxn D).2 sts (σ.beginTxn D).1 0
+    have hnew := begin_new_active D σ
+    generalize State.batch D (σ.beginTxn D).1 (σ.beginTxn D).2 0 sts = r at hs
+    obtain ⟨σ2, outs, res⟩ := r
+    simp only at hs ⊢
+    have hact2 : ∀ t, σ2.txns[(σ.beginTxn D).2]? = some t → t.status = .active := by
+      intro t ht
+      obtain ⟨t0, ht0, e, _⟩ := hs.bwd _ t ht
+      rw [hnew] at ht0; cases ht0; exact e
+    have g2 : Grows σ σ2 := (grows_begin D σ).trans hs.grows
+    cases res with
+    | some e => exact g2.trans (grows_abort σ2 _ hact2)
+    | none => exact g2.trans (grows_commitC D σ2 _ hact2)
+  | tick =>
+    simp only [stepCore]
+    refine (grows_begin D σ).trans (grows_commitTxn _ _ ?_)
+    intro t ht
+    rw [begin_new_active D σ] at ht; cases ht; rfl
+  | nop => exact Grows.refl σ
+
+/-! ### rolled back stays rolled back, also through close and open -/
+
+/-- `σ'` has at least the transaction ids of `σ`, and whatever is rolled back in `σ` is rolled back in `σ'` -/
+def KA (σ σ' : Db.State) : Prop :=
+  σ.txns.length ≤ σ'.txns.length ∧ ∀ u, statusIs σ.txns .aborted u = true → statusIs σ'.txns .aborted u = true
+
+theorem statusIs_iff (txns : List Txn) (st : Status) (u : Nat) :
+    statusIs txns st u = true ↔ ∃ t, txns[u]? = some t ∧ t.status = st := by
+  simp only [statusIs]
+  cases txns[u]? with
+  | none => simp
+  | some t => simp
+
+theorem KA.refl (σ : Db.State) : KA σ σ := ⟨Nat.le_refl _, fun _ h => h⟩
+
+theorem KA.trans {σ σ' σ'' : Db.State} (h1 : KA σ σ') (h2 : KA σ' σ'') : KA σ σ'' :=
+  ⟨Nat.le_trans h1.1 h2.1, fun u h => h2.2 u (h1.2 u h)⟩
+
+theorem Grows.ka {σ σ' : Db.State} (h : Grows σ σ') : KA σ σ' := by
+  refine ⟨h.len, ?_⟩
+  intro u hu
+  obtain ⟨t, ht, hs⟩ := (statusIs_iff _ _ _).1 hu
+  obtain ⟨t', ht', e⟩ := h.dead u t ht (by rw [hs]; decide)
+  exact (statusIs_iff _ _ _).2 ⟨t', ht', e.trans hs⟩
+
+theorem ka_of_txns {σ σ' : Db.State} (h : σ'.txns = σ.txns) : KA σ σ' := by
+  unfold KA; rw [h]; exact ⟨Nat.le_refl _, fun _ h => h⟩
+
+theorem ka_abort (σ : Db.State) (tid : Nat) : KA σ (σ.abortTxn tid) := by
+  refine ⟨by simp [State.abortTxn, setStatus_length], ?_⟩
+  intro u hu
+  obtain ⟨t, ht, hs⟩ := (statusIs_iff _ _ _).1 hu
+  apply (statusIs_iff _ _ _).2
+  by_cases e : u = tid
+  · subst e
+    have hlt := getElem?_lt' ht
+    have : ∃ t', (σ.abortTxn u).txns[u]? = some t' :=
+      ⟨_, List.getElem?_eq_getElem (by simpa [State.abortTxn, setStatus_length] using hlt)⟩
+    obtain ⟨t', ht'⟩ := this
+    exact ⟨t', ht', setStatus_get_self _ _ _ _ ht'⟩
+  · exact ⟨t, by rw [abortTxn_get_ne σ tid u e]; exact ht, hs⟩
+
+theorem ka_abortList : ∀ (l : List (String × Nat)) (σ : Db.State), KA σ (abortList σ l)
+  | [], σ => KA.refl σ
+  | p :: l, σ => by
+    simp only [abortList, List.foldl_cons]
+    exact (ka_abort σ p.2).trans (ka_abortList l _)
+
+theorem ka_dropAll (σ : Db.State) : KA σ (dropAll σ) :=
+  (ka_abortList σ.sessions σ).trans (ka_of_txns rfl)
+
+theorem ka_tick (D : Db.Defects) {k : Nat} {σ : Db.State} (h : Wf k σ) : KA σ (tickDb D σ) := by
+  rw [tickDb_eq]; exact (stepCore_grows D h .tick).ka
+
+theorem ka_fail (D : Db.Defects) (σ : Db.State) : KA σ (failDb D σ) :=
+  (grows_begin D σ).ka.trans (ka_abort _ _)
+
+theorem ka_burn (D : Db.Defects) : ∀ (n : Nat) {k : Nat} {σ : Db.State}, Wf k σ → KA σ (burnDb D n σ)
+  | 0, _, σ, _ => KA.refl σ
+  | n + 1, k, σ, h => by
+    simp only [burnDb]
+    exact (ka_tick D h).trans (ka_burn D n ((commutes_tick D).wf k σ h))
+
+theorem ka_quiesce (σ : Db.State) : KA σ (quiesce σ) := by
+  refine ⟨by simp [quiesce_eq], ?_⟩
+  intro u hu
+  obtain ⟨t, ht, hs⟩ := (statusIs_iff _ _ _).1 hu
+  apply (statusIs_iff _ _ _).2
+  refine ⟨deact t, by simp [quiesce_eq, ht], ?_⟩
+  unfold deact
+  simp [hs]
+
+/-- what `close` persists of the rolled-back set is what `open` reloads (all of it when no defect flag is on) -/
+theorem ka_open_close (cfg : Config) (w : WState) : KA w.db (openDb cfg (closeDb Defects.none w)).db := by
+  refine ⟨by simp [openDb, closeDb], ?_⟩
+  intro u hu
+  obtain ⟨t, ht, hs⟩ := (statusIs_iff _ _ _).1 hu
+  apply (statusIs_iff _ _ _).2
+  have hlt := getElem?_lt' ht
+  have hmem : u ∈ idsWith Status.aborted w.db.txns 0 := (mem_idsWith0' _ _ _).2 ⟨t, ht, hs⟩
+  refine ⟨reloadTxn (closeDb Defects.none w).aborted u, by simp [openDb, closeDb, hlt], ?_⟩
+  simp [reloadTxn, closeDb, Defects.none, hmem]
+
+theorem ka_fields_tick (D : Db.Defects) {k : Nat} {σ : Db.State} (h : Wf k σ) (c : Catalog) (r : List Row) (ix : Index) :
+    KA σ (tickDb D { σ with cat := c, rows := r, index := ix }) :=
+  (ka_of_txns (σ := σ) (σ' := { σ with cat := c, rows := r, index := ix }) rfl).trans
+    (ka_tick D (k := k) (σ := { σ with cat := c, rows := r, index := ix }) ⟨h.kle, h.act, h.sessAct, h.sessInj⟩)
+
+theorem stepCoreW_ka (D : Db.Defects) (ideal : Bool) {w : WState} (h : WfW w) (op : WOp) :
+    KA w.db (stepCoreW D Defects.none ideal w op).1.db := by
+  obtain ⟨k, hk⟩ := h
+  cases op with
+  | db op =>
+    simp only [stepCoreW, Defects.none, Bool.false_and, Bool.false_eq_true, if_false]
+    exact (stepCore_grows D hk op).ka
+  | create ts =>
+    simp only [stepCoreW]
+    split
+    · exact ka_fail D _
+    · exact ka_fields_tick D hk _ _ _
+  | dropTable t =>
+    simp only [stepCoreW]
+    split
+    · exact ka_fields_tick D hk _ _ _
+    · exact ka_fail D _
+  | vacuum =>
+    exact ka_fields_tick D hk w.db.cat (vacuumRows w.db.txns w.db.rows) w.db.index
+  | tid => exact ka_tick D hk
+  | burn n => exact ka_burn D n hk
+  | obs t =>
+    simp only [stepCoreW]
+    split
+    · exact ka_tick D hk
+    · exact ka_fail D _
+  | reopen leak cfg =>
+    simp only [stepCoreW]
+    have h1 : KA w.db (if leak then w else { w with db := dropAll w.db }).db := by
+      cases leak
+      · exact ka_dropAll w.db
+      · exact KA.refl _
+    generalize (if leak = true then w else { w with db := dropAll w.db }) = w1 at h1
+    cases ideal
+    · simp only [Bool.false_eq_true, if_false]
+      exact h1.trans ((ka_open_close cfg w1).trans (ka_tick D (wf_open cfg _ w1)))
+    · simp only [if_true]
+      exact h1.trans ((ka_quiesce w1.db).trans (ka_tick D (wf_quiesce w1.db)))
+
+theorem stepW_ka (D : Db.Defects) (ideal : Bool) {w : WState} (h : WfW w) (op : WOp) :
+    KA w.db (stepW D Defects.none ideal w op).1.db :=
+  (stepCoreW_ka D ideal h op).trans (ka_of_txns rfl)
+
+theorem runFromW_ka (D : Db.Defects) (ideal : Bool) : ∀ (ops : List WOp) (w : WState) (acc : List WOut), WfW w →
+    KA w.db (runFromW D Defects.none ideal w ops acc).1.db
+  | [], w, _, _ => KA.refl _
+  | op :: ops, w, acc, h => by
+    simp only [runFromW]
+    exact (stepW_ka D ideal h op).trans (runFromW_ka D ideal ops _ _ (stepW_wf D _ ideal h op))
+
+/-- a snapshot taken now does not see a transaction that is rolled back -/
+theorem fresh_not_sees_aborted (D : Db.Defects) (σ : Db.State) (u : Nat) (h : statusIs σ.txns .aborted u = true) :
+    (σ.freshSnap D).sees u = false := by
+  obtain ⟨t, ht, hs⟩ := (statusIs_iff _ _ _).1 h
+  have hlt := getElem?_lt' ht
+  have hmem : u ∈ idsWith Status.aborted σ.txns 0 := (mem_idsWith0' _ _ _).2 ⟨t, ht, hs⟩
+  have hne : (u == σ.txns.length) = false := by simpa using Nat.ne_of_lt hlt
+  simp [State.freshSnap, Snapshot.sees, Snapshot.cb, hmem, hne]
+
+/-! ### ids in use lie below the counters -/
+
+structure IdInv (w : WState) : Prop where
+  /-- every row id handed out for a table is below the table's `next_row_id` -/
+  rows : ∀ m ∈ w.rmeta, ∃ n, lookup m.table w.nextRow = some n ∧ m.rowId < n
+  /-- every object id handed out to a table is below `last_stored_object` -/
+  objs : ∀ p ∈ w.objs, p.2 < w.lastObject
+
+theorem lookup_bump (s t : String) : ∀ (l : List (String × Nat)),
+    lookup s (bump t l) = if s = t then (lookup s l).map (· + 1) else lookup s l
+  | [] => by simp [bump, lookup]
+  | (k, n) :: rest => by
+    simp only [bump]
+    by_cases e : k = t
+    · subst e
+      simp only [beq_self_eq_true, if_true, lookup]
+      by_cases e2 : s = k
+      · subst e2; simp
+      · have : (k == s) = false := by simpa using fun h => e2 h.symm
+        simp [this, e2]
+    · have hb : (k == t) = false := by simpa using e
+      simp only [hb, Bool.false_eq_true, if_false, lookup]
+      rw [lookup_bump s t rest]
+      by_cases e2 : s = t
+      · subst e2
+        have : (k == s) = false := by simpa using e
+        simp [this]
+      · by_cases e3 : k = s
+        · subst e3; simp [e2]
+        · have : (k == s) = false := by simpa using e3
+          simp [this, e2]
+
+theorem assign_inv : ∀ (rows : List Row) (nr : List (String × Nat)) (m : List RowMeta),
+    (∀ x ∈ m, ∃ n, lookup x.table nr = some n ∧ x.rowId < n) →
+    ∀ x ∈ (assign nr m rows).2, ∃ n, lookup x.table (assign nr m rows).1 = some n ∧ x.rowId < n
+  | [], _, _, h => h
+  | r :: rs, nr, m, h => by
+    simp only [assign]
+    cases hl : lookup r.table nr with
+    | none => exact assign_inv rs nr m h
+    | some n =>
+      simp only
+      apply assign_inv rs
+      intro x hx
+      rcases List.mem_append.1 hx with hx | hx
+      · obtain ⟨n', h1, h2⟩ := h x hx
+        rw [lookup_bump]
+        by_cases e : x.table = r.table
+        · simp only [e, if_true]
+          rw [e] at h1
+          rw [h1]
+          exact ⟨n' + 1, rfl, by omega⟩
+        · simp only [e, if_false]
+          exact ⟨n', h1, h2⟩
+      · simp only [List.mem_singleton] at hx
+        subst hx
+        rw [lookup_bump]
+        simp only [if_true, hl]
+        exact ⟨n + 1, rfl, Nat.lt_succ_self n⟩
+
+theorem lookup_append_some (s : String) (n : Nat) : ∀ (l l' : List (String × Nat)), lookup s l = some n →
+    lookup s (l ++ l') = some n
+  | [], _, h => by simp [lookup] at h
+  | (k, v) :: rest, l', h => by
+    simp only [List.cons_append, lookup] at h ⊢
+    by_cases e : (k == s) = true
+    · simpa [e] using h
+    · simp only [e, Bool.false_eq_true, if_false] at h ⊢
+      exact lookup_append_some s n rest l' h
+
+theorem mem_erase_of (t : String) : ∀ (l : List (String × Nat)) (p : String × Nat), p ∈ erase t l → p ∈ l
+  | [], _, h => by simp [erase] at h
+  | (k, v) :: rest, p, h => by
+    simp only [erase] at h
+    by_cases e : (k == t) = true
+    · simp only [e, if_true] at h
+      exact List.mem_cons_of_mem _ (mem_erase_of t rest p h)
+    · simp only [e, Bool.false_eq_true, if_false, List.mem_cons] at h
+      rcases h with h | h
+      · exact h ▸ List.mem_cons_self
+      · exact List.mem_cons_of_mem _ (mem_erase_of t rest p h)
+
+theorem stepCoreW_idInv (D : Db.Defects) (R : Defects) (ideal : Bool) {w : WState} (h : IdInv w) (op : WOp) :
+    IdInv (stepCoreW D R ideal w op).1 := by
+  cases op with
+  | db op =>
+    simp only [stepCoreW]
+    split
+    · exact h
+    · exact ⟨assign_inv _ _ _ h.rows, h.objs⟩
+  | create ts =>
+    simp only [stepCoreW]
+    split
+    · exact ⟨h.rows, h.objs⟩
+    · refine ⟨?_, ?_⟩
+      · intro m hm
+        obtain ⟨n, h1, h2⟩ := h.rows m hm
+        exact ⟨n, lookup_append_some _ _ _ _ h1, h2⟩
+      · intro p hp
+        simp only [objectsOf]
+        rcases List.mem_append.1 hp with hp | hp
+        · have := h.objs p hp; omega
+        · simp only [List.mem_singleton] at hp
+          subst hp; simp only; omega
+  | dropTable t =>
+    simp only [stepCoreW]
+    split
+    · refine ⟨?_, fun p hp => h.objs p (mem_erase_of t _ p hp)⟩
+      intro m hm
+      simp only [List.mem_filter, bne_iff_ne, ne_eq] at hm
+      obtain ⟨n, h1, h2⟩ := h.rows m hm.1
+      refine ⟨n, ?_, h2⟩
+      rw [lookup_erase']
+      simp [hm.2, h1]
+    · exact ⟨h.rows, h.objs⟩
+  | vacuum => exact ⟨h.rows, h.objs⟩
+  | tid => exact ⟨h.rows, h.objs⟩
+  | burn n => exact ⟨h.rows, h.objs⟩
+  | obs t =>
+    simp only [stepCoreW]
+    split <;> exact ⟨h.rows, h.objs⟩
+  | reopen leak cfg =>
+    simp only [stepCoreW]
+    cases leak <;> cases ideal <;> exact ⟨h.rows, h.objs⟩
+
+theorem stepW_idInv (D : Db.Defects) (R : Defects) (ideal : Bool) {w : WState} (h : IdInv w) (op : WOp) :
+    IdInv (stepW D R ideal w op).1 := by
+  have := stepCoreW_idInv D R ideal h op
+  exact ⟨this.rows, this.objs⟩
+
+theorem idInv_init (cfg : Config) : IdInv (WState.init cfg) :=
+  ⟨fun m hm => by simp [WState.init] at hm, fun p hp => by simp [WState.init] at hp⟩
+
+/-! ### the configuration passed to `open` -/
+
+/-- the same operation with another configuration handed to `open` -/
+def WOp.setCfg (f : Config → Config) : WOp → WOp
+  | .reopen leak cfg => .reopen leak (f cfg)
+  | op => op
+
+/-- equal except for the in-memory settings -/
+def EnvEq (w w' : WState) : Prop := { w with env := w'.env } = w'
+
+theorem stepW_envEq (D : Db.Defects) (R : Defects) (ideal : Bool) (f : Config → Config) {w w' : WState} (h : EnvEq w w')
+    (op : WOp) :
+    EnvEq (stepW D R ideal w op).1 (stepW D R ideal w' (op.setCfg f)).1 ∧
+    (stepW D R ideal w op).2 = (stepW D R ideal w' (op.setCfg f)).2 := by
+  obtain ⟨db, nr, rm, ob, lo, hd, env⟩ := w
+  obtain ⟨db', nr', rm', ob', lo', hd', env'⟩ := w'
+  simp only [EnvEq, WState.mk.injEq, and_true] at h
+  obtain ⟨rfl, rfl, rfl, rfl, rfl, rfl⟩ := h
+  cases op with
+  | db op =>
+    simp only [stepW, stepCoreW, WOp.setCfg, EnvEq]
+    split <;> simp
+  | create ts =>
+    simp only [stepW, stepCoreW, WOp.setCfg, EnvEq]
+    split <;> simp
+  | dropTable t =>
+    simp only [stepW, stepCoreW, WOp.setCfg, EnvEq]
+    split <;> simp
+  | vacuum => simp [stepW, stepCoreW, WOp.setCfg, EnvEq]
+  | tid => simp [stepW, stepCoreW, WOp.setCfg, EnvEq]
+  | burn n => simp [stepW, stepCoreW, WOp.setCfg, EnvEq]
+  | obs t =>
+    simp only [stepW, stepCoreW, WOp.setCfg, EnvEq]
+    split <;> simp
+  | reopen leak cfg =>
+    cases leak <;> cases ideal <;> simp [stepW, stepCoreW, WOp.setCfg, EnvEq, openDb, closeDb]
+
+theorem runFromW_envEq (D : Db.Defects) (R : Defects) (ideal : Bool) (f : Config → Config) :
+    ∀ (ops : List WOp) (w w' : WState) (acc : List WOut), EnvEq w w' →
+    (runFromW D R ideal w ops acc).2 = (runFromW D R ideal w' (ops.map (WOp.setCfg f)) acc).2
+  | [], _, _, _, _ => rfl
+  | op :: ops, w, w', acc, h => by
+    obtain ⟨a1, a2⟩ := stepW_envEq D R ideal f h op
+    simp only [runFromW, List.map_cons]
+    rw [a2]
+    exact runFromW_envEq D R ideal f ops _ _ _ a1
+
 end AxVerif.Reopen
